@@ -33,18 +33,22 @@ using FSM = M::PeerRoot<STATE_LIST>;
 typedef FSM::Instance Inst;
 enum { K_ENTRYGUARD = 1, K_ENTER = 2, K_REENTER = 4, K_EXITGUARD = 8, K_EXIT = 16, K_PREUPDATE = 32, K_UPDATE = 64, K_POSTUPDATE = 128,
        K_PREREACT = 256, K_REACT = 512, K_POSTREACT = 1024, K_QUERY = 2048 };
-static int allow_a = -1, allow_b = -1;      // the only state ids whose callbacks may run in the current stage
-static unsigned seen_a, seen_b;             // callback kinds delivered to them
+static int allow_a = -1, allow_b = -1, allow_c = -1;      // the only state ids whose callbacks may run in the current stage
+static unsigned seen_a, seen_b, seen_c;     // callback kinds delivered to them
+static int route_from = -1, route_to = -1, veto_at = -1;   // scripted guard behaviour of the routed stage
 static const void* self_a; static const void* self_b;
 static unsigned root_seen;
 __attribute__((noinline)) static void cb(unsigned kind, int I, const void* self) {
   vrec(kind, I);
-  vassert(I == allow_a || I == allow_b, 1401);                  // only the addressed state's callbacks run
+  vassert(I == allow_a || I == allow_b || I == allow_c, 1401);  // only the addressed state's callbacks run
   if (I == allow_a) { seen_a |= kind; self_a = self; }
   else if (I == allow_b) { seen_b |= kind; self_b = self; }
+  else if (I == allow_c) { seen_c |= kind; }
 }
 template <int I> struct St : FSM::State {
-  void entryGuard(GuardControl&) { cb(K_ENTRYGUARD, I, this); }
+  void entryGuard(GuardControl& c) { cb(K_ENTRYGUARD, I, this);
+    if (I == route_from) c.changeTo(static_cast<ffsm2::StateID>(route_to));
+    if (I == veto_at) c.cancelPendingTransition(); }
   void enter(PlanControl&) { cb(K_ENTER, I, this); }
   void reenter(PlanControl&) { cb(K_REENTER, I, this); }
   void exitGuard(GuardControl&) { cb(K_EXITGUARD, I, this); }
@@ -109,6 +113,20 @@ extern "C" int harness(void) {
   // distinct states are distinct objects
   { int j = nondet_below(NSTATES); if (j != k2) vassert(Acc<0>::of(m, j) != Acc<0>::of(m, k2) || sizeof(St<0>) == 0, 1412); }
   allow_a = k2; allow_b = k2;
+#if NSTATES >= 2
+  // ids stay attached to their states through a substitution chain: the request to id ka passes ka's own guard, which
+  // asks for kb on top without cancelling; kb's guard refuses -> the accepted request is the one to ka, and kb never runs
+  { int ka = nondet_below(NSTATES), kb = nondet_below(NSTATES); vassume(ka != kb);
+    const int cur = k2;
+    allow_a = cur; allow_b = ka; allow_c = (kb == cur || kb == ka) ? -1 : kb; seen_a = seen_b = seen_c = 0;
+    route_from = ka; route_to = kb; veto_at = kb;
+    m.immediateChangeTo(static_cast<ffsm2::StateID>(ka));
+    route_from = route_to = veto_at = -1;
+    vassert(m.activeStateId() == ka, 1415);                     // requesting id ka activated state ka, not the state whose guard refused
+    if (kb != cur) vassert((kb == ka ? seen_b : seen_c) == K_ENTRYGUARD || kb == ka, 1416);      // kb was consulted and nothing else of it ran
+    if (ka != cur) vassert((seen_b & K_ENTER) && (seen_a & K_EXIT), 1416);
+    k2 = ka; allow_c = -1; allow_a = k2; allow_b = k2; }
+#endif
 #ifdef FFSM2_ENABLE_PLANS
   // a request made on behalf of a plan task (payload-free and, where configured, payload-carrying) reaches id k3 as well
   { int k3 = nondet_below(NSTATES); unsigned char withp = nondet_u8() & 1; (void)withp;
